@@ -52,7 +52,7 @@ TYPE_KEYWORDS = {'instance': 'instance of', 'treat': 'treat as', 'castable': 'ca
 
 def level(node, tbl):
     t = node[0]
-    if t in ('num', 'name', 'var', 'str', 'dot', 'call', 'paren'):
+    if t in ('num', 'name', 'var', 'str', 'dot', 'call', 'paren', 'root', 'parent'):
         return ATOM_LEVEL
     if t == 'un':
         return tbl['neg'][0]
@@ -61,7 +61,7 @@ def level(node, tbl):
     return tbl[node[1]][0]          # ('bin', op, l, r) / ('type', op, e, typename)
 
 
-def gen_tree(rng, version, depth, want='any'):
+def gen_tree(rng, version, depth, want='any', level_hint=None):
     """Random operator tree. want: 'any' | 'step' (something usable as a path step)."""
     tbl = table(version)
     if depth <= 0 or rng.random() < 0.25:
@@ -80,13 +80,18 @@ def gen_tree(rng, version, depth, want='any'):
     if k < 0.25 and depth > 1:
         return ['call', rng.choice(['boolean', 'not', 'count', 'string']), gen_tree(rng, version, depth - 1)]
     op = rng.choice(ops)
+    if level_hint is not None and rng.random() < 0.35:
+        same = [o for o in ops if tbl[o][0] == level_hint]
+        if same:
+            op = rng.choice(same)       # stress associativity: a child on the same precedence level as its parent
     kind = tbl[op][1]
     if kind == 'type':
         return ['type', op, gen_tree(rng, version, depth - 1), rng.choice(TYPES)]
     if kind == 'path':
         return ['bin', op, gen_tree(rng, version, depth - 1, 'step' if rng.random() < 0.7 else 'any'),
                 gen_tree(rng, version, depth - 1, 'step')]
-    return ['bin', op, gen_tree(rng, version, depth - 1), gen_tree(rng, version, depth - 1)]
+    return ['bin', op, gen_tree(rng, version, depth - 1, level_hint=tbl[op][0]),
+            gen_tree(rng, version, depth - 1, level_hint=tbl[op][0])]
 
 
 def gen_atom(rng, version, want='any'):
@@ -99,8 +104,12 @@ def gen_atom(rng, version, want='any'):
         return ['name', rng.choice('abc')]
     if k < 0.8:
         return ['var', rng.choice('vw')]
-    if k < 0.9:
+    if k < 0.88:
         return ['str', rng.choice(['s', 't', ''])]
+    if k < 0.93:
+        return ['root']
+    if k < 0.96:
+        return ['parent']
     return ['dot']
 
 
@@ -159,6 +168,10 @@ def tokens(node, tbl, version, rng=None, redundant=0.0):
         return ["'%s'" % node[1]]
     if t == 'dot':
         return ['.']
+    if t == 'root':
+        return ['(', '/', ')']          # leading-lone-slash constraint: as an operand it is parenthesised
+    if t == 'parent':
+        return ['..']
     if t == 'un':
         return [node[1]] + sub(node[2], node, 'R')
     if t == 'bin':
@@ -185,6 +198,10 @@ def expected_tree(node):
         return "('%s')" % node[1]
     if t == 'dot':
         return '(.)'
+    if t == 'root':
+        return '(/)'
+    if t == 'parent':
+        return '(..)'
     if t == 'un':
         return '(%s %s)' % (node[1], expected_tree(node[2]))
     if t == 'bin':
@@ -231,7 +248,8 @@ def layout_parts(toks, rng, version):
             elif k < 0.85:
                 sep = rng.choice(['  ', '\t', '\n', ' \n ', '\r\n'])
             elif version != '1.0':
-                pieces = [rng.choice([' (: c :) ', '(: x (: nested :) y :)', ' (::) ', '\n(: a\nb :)\n', '(: c :)'])
+                pieces = [rng.choice([' (: c :) ', '(: x (: nested :) y :)', ' (::) ', '\n(: a\nb :)\n', '(: c :)',
+                                      '(: a (: b :) c (: d :) e :)', '(:(::)(::):)', '(: (: (: deep :) :) (: x :) :)'])
                           for _ in range(rng.choice([1, 1, 2, 3]))]
                 sep = rng.choice(['', ' ', '\n', '  ']).join(pieces)
                 if not tight_ok:
